@@ -2,6 +2,8 @@
 //!
 //! c08_parse : {"patterns":[p,..]} -> {"asts":[AST | {"k":"syntax_error","s":msg} | {"k":"parse_panic"}]}
 //!             the abstract syntax trees as the crate's own parser sees them (scnr::verif::parse)
+//! c08_ctx   : {"pairs":[[ctx,p],..]} -> as c08_class for p, observed in the second mode of a scanner whose first
+//!             mode holds ctx (scanner-wide class registry: ctx is registered first)
 //! c08_class : {"patterns":[p,..]} -> {"res":[{"p":p,"ast":AST,"build":class,"error":msg,
 //!                                             "ranges":[[lo,hi],..]|null,"tokens":n,"anomalies":[..]}]}
 //!             for every pattern the one-pattern scanner is built and ONE haystack that contains
@@ -14,7 +16,7 @@ use std::panic::{catch_unwind, AssertUnwindSafe};
 use std::sync::LazyLock;
 
 use scnr::verif;
-use scnr::{Pattern, ScannerMode};
+use scnr::{Pattern, ScannerMode, ScannerModeSwitcher};
 use serde_json::{json, Value};
 
 /// Every scalar value once, ascending.
@@ -44,8 +46,18 @@ fn push_cp(ranges: &mut Vec<(u32, u32)>, cp: u32) {
 }
 
 fn class_one(p: &str) -> Value {
+    class_in_context(None, p)
+}
+
+/// The class `p` observed through a scanner whose FIRST mode holds the pattern `ctx` (registered
+/// before `p` in the scanner-wide class registry); the sweep runs in the mode of `p`.
+fn class_in_context(ctx: Option<&str>, p: &str) -> Value {
     let ast = parse_one(p);
-    let modes = vec![ScannerMode::new("L", vec![Pattern::new(p.to_string(), 0)], vec![])];
+    let mut modes = Vec::new();
+    if let Some(c) = ctx {
+        modes.push(ScannerMode::new("C", vec![Pattern::new(c.to_string(), 7)], vec![]));
+    }
+    modes.push(ScannerMode::new("L", vec![Pattern::new(p.to_string(), 0)], vec![]));
     let (scanner, class, msg) = crate::build(&modes, false);
     let Some(scanner) = scanner else {
         return json!({"p": p, "ast": ast, "build": class, "error": msg, "ranges": Value::Null});
@@ -56,7 +68,11 @@ fn class_one(p: &str) -> Value {
     let mut tokens = 0u64;
     let r = catch_unwind(AssertUnwindSafe(|| {
         let mut last_end = 0usize;
-        for m in scanner.find_iter(text) {
+        let mut it = scanner.find_iter(text);
+        if ctx.is_some() {
+            it.set_mode(1);
+        }
+        for m in it {
             tokens += 1;
             let (s, e) = (m.start(), m.end());
             let ok = s >= last_end
@@ -99,6 +115,23 @@ pub fn run(kind: &str, job: &Value) -> Option<Value> {
             let res: Vec<Value> = job["patterns"]
                 .as_array()
                 .map(|a| a.iter().map(|p| class_one(p.as_str().unwrap_or(""))).collect())
+                .unwrap_or_default();
+            Some(json!({"res": res}))
+        }
+        "c08_ctx" => {
+            let res: Vec<Value> = job["pairs"]
+                .as_array()
+                .map(|a| {
+                    a.iter()
+                        .map(|pr| {
+                            let c = pr[0].as_str().unwrap_or("");
+                            let p = pr[1].as_str().unwrap_or("");
+                            let mut v = class_in_context(Some(c), p);
+                            v["ctx"] = json!(c);
+                            v
+                        })
+                        .collect()
+                })
                 .unwrap_or_default();
             Some(json!({"res": res}))
         }
